@@ -28,8 +28,12 @@ fn copy_dir_all(src: &std::path::Path, dst: &std::path::Path) -> std::io::Result
 	Ok(())
 }
 
+/// the fault switch is global to the process: drivers of this file never run at the same time
+static SERIAL: std::sync::Mutex<()> = std::sync::Mutex::new(());
+
 #[tokio::test(flavor = "multi_thread", worker_threads = 2)]
 async fn fault_enum() {
+	let _serial = SERIAL.lock().unwrap_or_else(|e| e.into_inner());
 	let mut cases = 0u64;
 	let mut nontrivial = 0u64;
 	let mut failures: Vec<String> = Vec::new();
@@ -178,6 +182,7 @@ async fn fault_enum() {
 // {1/2, 0.9, 1, 1.1, 2, 8} x memtable size, placed first / in the middle of 4 small commits; flush_on_close on / off.
 #[tokio::test(flavor = "multi_thread", worker_threads = 2)]
 async fn oversize_enum() {
+	let _serial = SERIAL.lock().unwrap_or_else(|e| e.into_inner());
 	let cap = 64 * 1024usize;
 	let mut cases = 0u64;
 	let mut nontrivial = 0u64;
